@@ -30,16 +30,16 @@ LHS = [
 ]
 RHS = {
     "==": ["5", "6", "1.5", '"ab"', '"zz"', "true", "null", "[1, 2, 3]", "[5]", '{ "a": 1 }', "/^a/", "/zz/", "r[1,10]", "r(5,9)",
-           "%lit5", "%litab", "j", "t", "zz", "l[*]", "%qj", "to_lower(t)", 'join(ls, "")', "count(l)", "count(l1[*])", "parse_int(%s5)"],
-    "<": ["5", "6", "4", "1.5", "2.5", '"b"', '"a"', "true", "%lit5", "j", "[6]", "count(l)", "parse_int(%s5)", "to_upper(t)"],
+           "%lit5", "%litab", "j", "t", "zz", "l[*]", "%qj", "to_lower(t)", 'join(ls, "")', "count(l)", "count(l1[*])", "parse_int(%s5)", "lm[ x == 99 ].x", "%qe"],
+    "<": ["5", "6", "4", "1.5", "2.5", '"b"', '"a"', "true", "%lit5", "j", "[6]", "count(l)", "parse_int(%s5)", "to_upper(t)", "lm[ x == 99 ].x", "%qe"],
     "<=": ["5", "4", "1.5", '"ab"', "j"],
     ">": ["5", "4", "6", "0.5", '"aa"', "%lit5", "j", "nest.k.v", "count(l)", "to_upper(t)"],
     ">=": ["5", "6", "1.5", '"ab"', "j", "parse_int(%s5)", "to_lower(t)"],
     "in": ["[5, 6]", "[1, 2]", "[1, 2, 3, 4]", '["ab", "cd"]', "[1.5]", "[true]", "[null]", "r[1,10]", "r(5,9]", "%litlist", "l", '"xaby"', "[[1, 2, 3]]",
-           "l[*]", "ls", "ls[*]", "%ql", "%qls", "l1", "l1[*]"],
+           "l[*]", "ls", "ls[*]", "%ql", "%qls", "l1", "l1[*]", "lm[ x == 99 ].x", "%qe", "lm[ x == 99 ]"],      # the last three select nothing: SKIP under every spelling
 }
 UNARY = gen.UNARY
-PRELUDE = 'let s5 = "5"\nlet lit5 = 5\nlet litab = "ab"\nlet litlist = [5, "ab"]\nlet qj = j\nlet ql = l\nlet qls = ls[*]\n'
+PRELUDE = 'let s5 = "5"\nlet lit5 = 5\nlet litab = "ab"\nlet litlist = [5, "ab"]\nlet qj = j\nlet ql = l\nlet qls = ls[*]\nlet qe = lm[ x == 99 ].x\n'
 FLIP = {"PASS": "FAIL", "FAIL": "PASS", "SKIP": "SKIP"}
 INV = {"<": ">=", "<=": ">", ">": "<=", ">=": "<"}
 
